@@ -392,6 +392,9 @@ TASK_STATE_MACHINE_DATA = {
         events.ACTION_SUCCEEDED_TASK_DORMANT_ITEMS_COMPLETED: statuses.SUCCEEDED,
     },
     statuses.PAUSED: {
+        events.ACTION_REQUESTED: statuses.REQUESTED,
+        events.ACTION_SCHEDULED: statuses.SCHEDULED,
+        events.ACTION_DELAYED: statuses.DELAYED,
         events.ACTION_RUNNING: statuses.RUNNING,
         events.ACTION_RESUMING: statuses.RESUMING,
         events.ACTION_CANCELING: statuses.CANCELING,
